@@ -3,7 +3,15 @@ package props
 import (
 	"fmt"
 	"strings"
+
+	"verif/mc"
 )
+
+// once runs body for the single default execution (alternative 0 at every
+// choice point, i.e. the non-preemptive default schedule).
+func once(body func(c *mc.Ctx)) mc.Stats {
+	return mc.Explore(mc.Options{DevBound: 0, PreemptBound: 0, MaxExecs: 1}, func(c *mc.Ctx) bool { body(c); return false })
+}
 
 // catch runs f and reports a panic of the implementation as a string.
 func catch(f func()) (panicked string) {
